@@ -69,7 +69,12 @@ Specs(p) == << Spec("HS256", 0, 0, 1), Spec("HS512", 1, 1, 1), Spec("RS256", 2, 
                Spec("HS256", 0, 0, 1), Spec("RS256", 2, 3, 1), Spec("ES256", 4, 5, 0) >>
              \o (IF p = "openssl" THEN << Spec("ES256K", 11, 11, 0) >> ELSE <<>>)
 Iters == IF Tier = "quick" THEN 150 ELSE 2000
-Script(p, rep) == << OpsOp(p), LoadOp(AllKeys), [op |-> "Threads", ring |-> 0, iters |-> Iters, skew |-> 1, rep |-> rep, specs |-> Specs(p)] >>
+Kid(i) == CASE i = 1 -> "k1" [] i = 2 -> "k2" [] i = 3 -> "k3" [] i = 4 -> "k4" [] i = 5 -> "k5" [] i = 6 -> "k6" [] i = 7 -> "k7"
+            [] i = 8 -> "k8" [] i = 9 -> "k9" [] i = 10 -> "k10" [] i = 11 -> "k11" [] OTHER -> "k12"
+KeysWithKid == [i \in 1..Len(AllKeys) |-> [AllKeys[i] EXCEPT !.kid = Kid(i)]]
+\* bykid = 1: every thread looks its keys up by kid in the shared keyring from its callbacks, at every call
+Script(p, rep) == << OpsOp(p), LoadOp(KeysWithKid),
+                     [op |-> "Threads", ring |-> 0, iters |-> Iters, skew |-> 1, rep |-> rep, bykid |-> rep % 2, specs |-> Specs(p)] >>
 Emit == (\A t \in T : tpc[t] = 0) =>
-          \A p \in Providers : \A rep \in 1..(IF Tier = "quick" THEN 3 ELSE 25) : PrintT(<<"SCRIPT", ToJson(Script(p, rep))>>)
+          \A p \in Providers : \A rep \in 1..(IF Tier = "quick" THEN 4 ELSE 30) : PrintT(<<"SCRIPT", ToJson(Script(p, rep))>>)
 =============================================================================
